@@ -136,6 +136,24 @@ def replay_gen(c, mode, conc, cs, num, seed, label, memcap=60, l0=2, gen=None, *
     return res
 
 
+def binding_self_test(c, conc, cs, gen):
+    """the replayer must notice when the real store misses one put the handler returned (withheld by the harness itself)"""
+    behs = gen[0][:12]
+    payload = dict(property=c.prop, seed=c.seed, config=dict(Mode="store", Conc=conc, NK=cs["NK"], MaxBatch=cs["MaxBatch"], MemCap=60, L0Trigger=2, Sabotage=True),
+                   behaviours=behs)
+    res = vlib.run_harness("keyedstate", payload, timeout=600)
+    n = len(res.get("violations", []))
+    c.extra["binding_self_test"] = dict(behaviours=len(behs), reported=n)
+    if n == 0:
+        c.errors.append("binding self-test: a put withheld from the real store was not reported in any of %d behaviours" % len(behs))
+
+
+def stuck(c, res, what):
+    n = res.get("counters", {}).get("wait_timeouts", 0)
+    if n:
+        c.errors.append("%s: %d waits for the databases' background tasks timed out" % (what, n))
+
+
 def vacuous(c, res, what, key, least):
     n = res.get("counters", {}).get(key, 0)
     if n < least:
@@ -158,7 +176,7 @@ def run(c):
         exhaustive(c, 1, consts(MaxMut=2, MaxBatch=1, MaxTimers=1, MaxCkpt=1, MaxRestore=1), "3x2x2, <=2 mutations, timer, checkpoint+restore", timeout=1200)
     c.exhaustive = True
     # -- replays: (mode, table, MemTableSize, L0 trigger, keys, behaviours, extra constants)
-    n = 60 if q else 400
+    n = 60 if q else 300
     jobs = [("store", 0, 60, 2, 3, n, {}), ("store", 1, 700, 2, 5, n, {}), ("store", 2, 45, 1, 5, n, {}),
             ("store", 4, 60, 2, 5, n, dict(MaxCkpt=3, MaxRestore=2)), ("store", 3, 90, 3, 3, n, dict(MaxTimers=0)), ("store", 0, 130, 2, 5, n, {})]
     if q:
@@ -172,13 +190,16 @@ def run(c):
     maxlen = 90 if q else 140
     css = [sim_consts(nk, 30, maxlen, **kw) for (_, _, _, _, nk, _, kw) in jobs]
     gens = par([(lambda i=i: generate(c, jobs[i][1], css[i], jobs[i][5], maxlen + 5, c.seed * 100 + i)) for i in range(len(jobs))], 4)
+    binding_self_test(c, jobs[0][1], css[0], gens[0])
     for i, (mode, conc, memcap, l0, nk, num, kw) in enumerate(jobs):
         res = replay_gen(c, mode, conc, css[i], num, c.seed * 100 + i, "%d keys" % nk, memcap=memcap, l0=l0, gen=gens[i])
         vacuous(c, res, "%s replay %d" % (mode, i), "fetches_nonempty", 10 if mode == "operator" else 20)
         if mode == "store":
             vacuous(c, res, "store replay %d" % i, "bg_steps", 20)
         # the same behaviours under another rotation / compaction rhythm (the model's Bg steps then meet other real states)
-        replay_gen(c, mode, conc, css[i], num, c.seed * 100 + i, "%d keys" % nk, memcap=memcap * 2 + 15, l0=l0 % 3 + 1, gen=gens[i], again=True)
+        res2 = replay_gen(c, mode, conc, css[i], num, c.seed * 100 + i, "%d keys" % nk, memcap=memcap * 2 + 15, l0=l0 % 3 + 1, gen=gens[i], again=True)
+        stuck(c, res, "%s replay %d" % (mode, i))
+        stuck(c, res2, "%s replay %d (second rhythm)" % (mode, i))
     c.assumptions += [
         "the handler answers only for keys of its batch; one operator per assembly, one source runner",
         "namespaces are valid UTF-8 strings shorter than 256 bytes (the protocol field is a string; its length is stored in one byte)",
